@@ -1,5 +1,6 @@
 import SkgVerif.Lemmas.Kriging
 import SkgVerif.Lemmas.KrigeAlgebra
+import SkgVerif.Lemmas.KrigeBridge
 /-!
 # C07 — ordinary kriging returns the solution of the ordinary-kriging system
 -/
@@ -46,7 +47,8 @@ theorem C07_system (n : ℕ) (G : ℕ → ℕ → Rat) (g0 : ℕ → Rat) :
 and variance are `Σ λ_i z_i` and `Σ λ_i γ(d(p, x_i)) + μ` -/
 theorem C07_outputs (n : ℕ) (G : ℕ → ℕ → Rat) (g0 : ℕ → Rat) (v : List Rat) (r : KrigeResult)
     (h : krigeSolve n G g0 v = some r) :
-    ∃ x, mulVec (assemble n G) x = rhs n g0 ∧ r.weights = x.take n ∧ r.mu = x.getD n 0 ∧
+    ∃ x, x.length = n + 1 ∧ mulVec (assemble n G) x = rhs n g0 ∧ r.weights = x.take n ∧
+      r.mu = x.getD n 0 ∧
       r.estimate = dot r.weights v ∧ r.variance = dot ((rhs n g0).take n) r.weights + r.mu := by
   unfold krigeSolve at h
   simp only at h
@@ -54,9 +56,39 @@ theorem C07_outputs (n : ℕ) (G : ℕ → ℕ → Rat) (g0 : ℕ → Rat) (v : 
   · exact absurd h (by simp)
   · rename_i x _
     split_ifs at h with hc
-    · refine ⟨x, by simpa [checkSol] using hc, ?_⟩
+    · simp only [checkSol, Bool.and_eq_true, beq_iff_eq, decide_eq_true_eq] at hc
+      refine ⟨x, by simpa [rhs] using hc.1, hc.2, ?_⟩
       cases h
       exact ⟨rfl, rfl, rfl, rfl⟩
+
+/-- the assembled list system is the ordinary-kriging equations (`IsOKSol`, the hypothesis of
+all C08 theorems): a result of the executable model always satisfies them -/
+theorem C07_result_is_OK_solution (n : ℕ) (G : ℕ → ℕ → Rat) (g0 : ℕ → Rat) (v : List Rat)
+    (r : KrigeResult) (h : krigeSolve n G g0 v = some r) :
+    IsOKSol (n := n) (fun i j => if (i : ℕ) = (j : ℕ) then 0 else G i j) (fun i => g0 i)
+      (fun j => r.weights.getD j 0) r.mu := by
+  obtain ⟨x, hlen, hx, hw, hmu, _, _⟩ := C07_outputs n G g0 v r h
+  have hwl : r.weights.length = n := by rw [hw, List.length_take]; omega
+  have hsplit : x = r.weights ++ [r.mu] := by
+    rw [hw, hmu]
+    have h1 : x = x.take n ++ x.drop n := (List.take_append_drop n x).symm
+    have h2 : x.drop n = [x.getD n 0] := by
+      have hdl : (x.drop n).length = 1 := by rw [List.length_drop]; omega
+      match hd : x.drop n, hdl with
+      | [a], _ =>
+        have : x.getD n 0 = a := by
+          rw [List.getD_eq_getElem?_getD, ← List.head?_drop, hd]; rfl
+        rw [this]
+    rw [← h2]; exact h1
+  rw [hsplit] at hx
+  exact (system_iff_isOKSol n G g0 r.weights r.mu hwl).1 hx
+
+/-- consequently the weights of every result of the executable model sum to one (C08 on the
+model itself, not only on an abstract solution) -/
+theorem C07_model_weights_sum_one (n : ℕ) (G : ℕ → ℕ → Rat) (g0 : ℕ → Rat) (v : List Rat)
+    (r : KrigeResult) (h : krigeSolve n G g0 v = some r) :
+    (Finset.univ : Finset (Fin n)).sum (fun j => r.weights.getD j 0) = 1 :=
+  (C07_result_is_OK_solution n G g0 v r h).2
 
 theorem count_none_zOf : ∀ outcomes : List Outcome,
     (outcomes.map zOf).count none = outcomes.countP isLess + outcomes.countP isSing := by
